@@ -13,9 +13,15 @@
 // Independently of the references: the fork with a callback must return exactly what the fork without one returns,
 // and the callback must observe exactly the go/scanner token stream from the point where it is installed.
 //
+// Where the two references differ only in the tree (e.g. go1.23.5 leaves FileStart/FileEnd unset in the empty file it
+// returns after a resolver bailout) but report the identical error list, the fork must report that error list too.
+//
 // Enumerated: (a) every token sequence of length <= k over a fixed alphabet in three frames (file, func body,
 // expression); (b) every single-token deletion / duplication / substitution of the corpus files
-// gnovm/tests/files/**.gno, examples/**.gno and the parser's own testdata; across parser modes.
+// gnovm/tests/files/**.gno, examples/**.gno and the parser's own testdata; across parser modes; (c) comment- and
+// line-directive-aware piece sequences in six frames and corpus files with one inserted `//line` / `/*line*/`
+// directive (comments.go); (d) nesting ladders around every parser limit (maxScopeDepth, maxNestLev) combined with
+// earlier errors on the same / other lines, in worker subprocesses (ladder.go).
 package main
 
 import (
@@ -890,6 +896,9 @@ func replay(path string) {
 	}
 	var t tally
 	c := caseID{family: "replay", ep: rec.Detail.Entry, mode: rec.Detail.Mode, label: rec.Detail.Label, src: []byte(rec.Detail.Src)}
+	if src, ok := ladderSourceFromLabel(rec.Detail.Label); ok { // ladder inputs are regenerated (large ones are stored clipped)
+		c.src = src
+	}
 	check(&c, &t)
 	t.flush()
 	flushClasses()
@@ -964,7 +973,7 @@ func main() {
 		modes     []uint // nil = modesFor(frame, allModes)
 	}
 	fFile, fBody, fExpr := frames[0:1], frames[1:2], frames[2:3]
-	var plans, late []plan
+	var plans, late, big []plan
 	upTo := func(name string, alpha []string, fr []frame, k int, all bool) {
 		for n := 0; n <= k; n++ {
 			plans = append(plans, plan{alphaName: name, alpha: alpha, frames: fr, n: n, allModes: all})
@@ -976,8 +985,8 @@ func main() {
 		upTo("decl12", decl12, fFile, 5, false)
 		upTo("stmt12", stmt12, fBody, 5, false)
 		upTo("expr12", expr12, fExpr, 5, false)
-		plans = append(plans, plan{alphaName: "wide", alpha: wide, frames: frames, n: 3})
-		plans = append(plans, plan{alphaName: "core", alpha: core, frames: frames, n: 4})
+		big = append(big, plan{alphaName: "wide", alpha: wide, frames: frames, n: 3})
+		big = append(big, plan{alphaName: "core", alpha: core, frames: frames, n: 4})
 	} else {
 		upTo("core", core, frames, 4, true)
 		upTo("wide", wide, frames, 3, true)
@@ -1004,6 +1013,9 @@ func main() {
 					continue
 				case n > all:
 					modes = pcModes
+					if r.Quick() {
+						modes = pcModesQuick
+					}
 				}
 				plans = append(plans, plan{alphaName: fam, alpha: al, frames: fr, n: n, family: fam, modes: modes})
 			}
@@ -1014,6 +1026,7 @@ func main() {
 	} else {
 		cmtDepth(4, 5, 6)
 	}
+	plans = append(plans, big...) // the two largest quick plans come last: they are the ones a budget cap should hit
 	only := os.Getenv("C21_ONLY")
 	if only == "cmt" {
 		plans, late = nil, nil
@@ -1027,8 +1040,11 @@ func main() {
 	}
 	// nesting ladders (ladder.go) run in worker subprocesses, concurrently with the in-process enumeration
 	ladderCh := make(chan ladderSummary, 1)
-	if os.Getenv("C21_BENCH") == "" && (only == "" || only == "ladder") {
-		par := 4
+	if os.Getenv("C21_BENCH") == "" && os.Getenv("C21_NOLADDER") == "" && (only == "" || only == "ladder") {
+		par := 3
+		if r.Thorough() {
+			par = 6
+		}
 		if only == "ladder" {
 			par, _ = strconv.Atoi(os.Getenv("C21_LPAR"))
 		}
@@ -1148,9 +1164,10 @@ func main() {
 	r.Assumptions = append(r.Assumptions,
 		"reference = agreement of go1.25.9 go/parser (toolchain) and a verbatim go1.23.5 copy; inputs where the two disagree are undecided (counted in outcome_histogram)",
 		"the callback is installed after parser.init has scanned the leading comments and first token; the callback oracle starts from there",
-		"inputs beyond the stated sequence length / alphabet and beyond single-token mutations of the corpus are not covered")
+		"inputs beyond the stated sequence length / alphabet and beyond single-token mutations / single inserted line directives of the corpus are not covered",
+		"nesting ladders: the trip point of a limit is located by bisection on the go1.25.9 reference assuming monotonicity; quick runs the 1e5-scale (maxNestLev) classes for one construct only (parenthesised expressions, file and expression entry points), thorough for all")
 	states := nseq + nmut.Load() + nlinedir.Load() + lad.cases
-	r.Finish("fork result (AST incl. positions, comments, scopes, objects; scanner.ErrorList) == stdlib result wherever go1.23.5 and go1.25.9 agree; no panic; callback is a pure observer of the scanner stream",
+	r.Finish("fork result (AST incl. positions, comments, scopes, objects; scanner.ErrorList) == stdlib result wherever go1.23.5 and go1.25.9 agree (error list alone where only their trees differ); no panic or crash; callback is a pure observer of the scanner stream",
 		exhaustive, map[string]any{
 			"states":                        states,
 			"transitions":                   r.Evals(),
